@@ -621,6 +621,13 @@ class TypeshedFinder:
                     return True
                 return False
             elif isinstance(info.ast, ast.Assign):
+                if isinstance(info.ast.value, ast.Name):
+                    # An alias within the stub, such as "EnumType = EnumMeta". Follow
+                    # it by name: at runtime both names may be the same class, whose
+                    # own name is the alias, and we would look it up again forever.
+                    aliased = self._get_info_for_name(f"{mod}.{info.ast.value.id}")
+                    if aliased is not None and aliased is not info:
+                        return self._has_attribute_from_info(aliased, mod, attr)
                 val = self._parse_expr(info.ast.value, mod)
                 if isinstance(val, KnownValue) and isinstance(val.val, type):
                     return self.has_attribute(val.val, attr)
